@@ -9,7 +9,8 @@ The file has four independent layers; a harness uses them top-down.
    ``World(dirs=[...])`` creates a file system containing the given
    directories.  Every method takes the calling process id first:
    ``makedirs mkdir mkdtemp open close write read pread pwrite ftruncate
-   rename rmdir remove rmtree listdir exists`` (Linux errno semantics;
+   fstat (size only) rename rmdir remove rmtree listdir exists`` (Linux errno
+   semantics;
    ``rename`` replaces an *empty* directory and fails with ENOTEMPTY on a
    non-empty one), ``lockf(pid, fd, cmd, len, start)`` POSIX record locks
    owned by the *process* (dropped when the process closes any descriptor of
@@ -411,6 +412,12 @@ class World:
             raise _err(errno.EINVAL)
         return bytes(of.ref.data[off:off + n])
 
+    def fstat(self, pid, fd):
+        """only the size is modelled (st_size; the other fields are 0)"""
+        of = self._fd(pid, fd, "file")
+        return _os.stat_result((0o100644, 0, 0, 1, 0, 0, len(of.ref.data),
+                                0, 0, 0))
+
     def ftruncate(self, pid, fd, length):
         of = self._fd(pid, fd, "file")
         if of.flags & _os.O_ACCMODE == _os.O_RDONLY or length < 0:
@@ -780,6 +787,18 @@ class OsFacade:
         rt = current()
         return rt.syscall("ftruncate", (fd, length),
                           lambda: rt.world.ftruncate(rt.pid(), fd, length))
+
+    def fstat(self, fd):
+        """os.fstat: only st_size is meaningful; the recorded result of the
+        operation is the size"""
+        rt = current()
+        box = []
+
+        def do():
+            box.append(rt.world.fstat(rt.pid(), fd))
+            return box[0].st_size
+        rt.syscall("fstat", (fd,), do)
+        return box[0]
 
 
 class FcntlFacade:
@@ -1817,7 +1836,9 @@ def _conf_scripts(root):
         (1, "g", "os_open", (R + "/run/ebpf/f", RW), {}),
         (1, None, "pread", ("$g", 64, 0), {}),
         (1, None, "pread", ("$g", 1, 17), {}),
+        (1, None, "fstat", ("$g",), {}),
         (0, None, "write", ("$fd", b"\2" + bytes(7)), {}),
+        (1, None, "fstat", ("$g",), {}),
         (1, None, "pread", ("$g", 64, 0), {}),
         (1, None, "pread", ("$g", 4, 6), {}),
         (1, None, "pread", ("$g", 4, 8), {}),
@@ -1931,6 +1952,8 @@ class _Backend:
             return self.fcntl.lockf(*args)
         if op == "listdir":
             return sorted(o.listdir(*args))
+        if op == "fstat":
+            return o.fstat(*args).st_size
         return getattr(o, op)(*args, **kw)
 
     def step(self, target, op, args, kw, names):
